@@ -30,7 +30,9 @@ Claims  == {"tok", "email_prof", "groups_prof", "no_groups", "ev_split"}
 
 \* claimMap = "custom": the operator configured other claims for e-mail and groups (oidc-email-claim = mail, oidc-groups-claim = roles);
 \* every token carries the standard AND the custom claims with different values: the session must take the configured ones
-Cfg == [extraAud : BOOLEAN, audClaim : {"aud", "azp"}, allowUnverified : BOOLEAN, keys : Keys, claimMap : {"default", "custom"}]
+Cfg == [extraAud : BOOLEAN, audClaim : {"aud", "azp"}, allowUnverified : BOOLEAN, keys : Keys, claimMap : {"default", "custom", "unset"}]
+\* claimMap = "unset": the provider comes from a structured configuration that leaves the e-mail / groups claim names empty (flag defaults
+\* do not apply there).  What such a provider accepts is not the property's business - what it must still REFUSE is.
 Tok == [sig : Sigs, iss : Issuers, aud : Auds, exp : Exps, ev : EVs, claims : Claims]
 Good == [sig |-> "right", iss |-> "match", aud |-> "client", exp |-> "future", ev |-> "true", claims |-> "tok"]
 
@@ -61,6 +63,8 @@ InScope(c) ==
                                                /\ c.tok.aud \in {"client", "other", "absent"})
     /\ (c.tok.claims = "ev_split" => c.tok.ev = "false")
     /\ (c.cfg.audClaim = "azp" => ~c.cfg.extraAud)
+    /\ (c.cfg.claimMap = "unset" => /\ c.tok.claims = "tok" /\ ~c.cfg.extraAud /\ c.cfg.audClaim = "aud" /\ ~c.cfg.allowUnverified
+                                     /\ c.cfg.keys = "discovery" /\ Differs(c.tok) = 1 /\ c.path \in {"callback", "bearer"})      \* (a refresh needs a session, which this provider may never grant)
     /\ (c.cfg.claimMap = "custom" => /\ c.tok.claims = "tok" /\ c.tok.ev = "true" /\ ~c.cfg.extraAud /\ c.cfg.audClaim = "aud" /\ ~c.cfg.allowUnverified
                                       /\ c.cfg.keys = "discovery" /\ Differs(c.tok) <= 1)
     /\ (c.cfg.keys = "jwks" => ~c.cfg.extraAud /\ c.cfg.audClaim = "aud" /\ ~c.cfg.allowUnverified /\ Differs(c.tok) <= 1 /\ c.tok.claims = "tok")
@@ -78,6 +82,10 @@ Next == UNCHANGED c
 \* acceptability is evaluated at each presentation: what was acceptable once is not acceptable for ever
 CaseRec == [fam |-> "tokens", in |-> c,
             req |-> IF c.path \in TwicePaths THEN [accepted |-> TRUE, acceptedAfterExpiry |-> FALSE, panic |-> FALSE]
+                    ELSE IF c.cfg.claimMap = "unset" /\ Req_Acceptable(c.tok, c.cfg, c.path) THEN [panic |-> FALSE]
+                    \* (such a provider does not read the e-mail claim - the session's e-mail is the subject - so an unverified address is
+                    \* harmless as long as it is not what the session carries)
+                    ELSE IF c.cfg.claimMap = "unset" /\ Req_Acceptable([c.tok EXCEPT !.ev = "true"], c.cfg, c.path) THEN [unverifiedEmailUsed |-> FALSE, panic |-> FALSE]
                     ELSE IF Req_Acceptable(c.tok, c.cfg, c.path)
                     THEN [accepted |-> TRUE, identity |-> IF c.cfg.claimMap = "custom" THEN Req_IdentityCustom ELSE Req_Identity(c.tok, c.path), panic |-> FALSE]
                     ELSE [accepted |-> FALSE, panic |-> FALSE]]
